@@ -13,6 +13,7 @@ import contextlib
 import glob
 import itertools
 import json
+import logging
 import os
 from unittest import mock
 
@@ -455,7 +456,7 @@ def refine_diag(case, log, diag):
 # --------------------------------------------------------------------------------------------
 
 def build_model():
-    return fw.ocaml_model("C20", ["Model/Lifecycle.vo"])
+    return fw.ocaml_model("C20", ["Model/Lifecycle.vo", "Model/Shutdown.vo"])
 
 
 def gen_lifecycle_cases(ctx):
@@ -474,7 +475,7 @@ def gen_lifecycle_cases(ctx):
         for fs in sets:
             for d in ("apprunner", "run_app"):
                 cases.append({"suite": "lifecycle", "driver": d, "tree": tree, "fails": list(fs)})
-    for _ in range(350 if ctx.quick else 12000):
+    for _ in range(600 if ctx.quick else 12000):
         tree = rand_tree(rng, _Ids())
         steps = tree_steps(tree) + ["site"]
         k = rng.choice([0, 1, 1, 1, 2, 2, 3, 4])
@@ -519,21 +520,404 @@ def suite_lifecycle(ctx, exe):
             cases.append({k: c[k] for k in ("suite", "driver", "tree", "fails")})
             ctx.count("lifecycle:corpus")
     cases += gen_lifecycle_cases(ctx)
-    model = fw.run_model(exe, [model_line(c) for c in cases])
+    # without a model runner (its build is a broken obligation already) the property oracle still searches
+    model = fw.run_model(exe, [model_line(c) for c in cases]) if exe else [None] * len(cases)
     for c, m in zip(cases, model):
         check_lifecycle_case(ctx, c, m)
     for c, m in list(zip(cases, model))[-2:]:
         ctx.sample({"case": c, "model_log": m})
-    ctx.traces_validated += len(cases)
-    ctx.close_suite("lifecycle", len(cases))
+    if exe:
+        ctx.traces_validated += len(cases)
+    ctx.close_suite("lifecycle", len(cases) if exe else 0)
+
+
+# --------------------------------------------------------------------------------------------
+# suite `shutdown`: graceful shutdown under virtual time
+#
+# case: {"suite": "shutdown", "t": ms, "s": ms, "off": ms, "conns": [{"phase": idle|new|partial|h|pipe|u,
+#        "d": ms|None, "late": ms|None}]}
+#   t = shutdown_timeout, s = how long the on_shutdown receiver sleeps, off = offset of loop.time() at T0,
+#   d = handler returns d ms after T0 (h, pipe) / rest of the body is sent d ms after T0 (u); None = never
+#   late = the peer sends a fresh request late ms after T0 (if the transport is still open)
+
+BASE_MS = 1_000_000            # VLoop starts at 1000.0 s
+
+
+def shut_model_phase(c) -> str:
+    ph, d = c["phase"], c.get("d")
+    if ph in ("idle", "new", "partial"):
+        return "idle"
+    if ph in ("h", "pipe"):
+        return "hinf" if d is None else f"h{d}"
+    if ph == "u":
+        return "uinf" if d is None else f"u{d}"
+    raise ValueError(ph)
+
+
+def shut_model_lines(case):
+    t, s, a = case["t"], case["s"], BASE_MS + case["off"]
+    lines = []
+    for c in case["conns"]:
+        lines.append(f"SHUT {t} {s} {a} {shut_model_phase(c)}")
+        if c.get("late") is not None:
+            lines.append(f"LATE {t} {s} {a} {shut_model_phase(c)} {c['late']}")
+    lines.append(f"RET {t} {s} {a} " + " ".join(shut_model_phase(c) for c in case["conns"]))
+    return lines
+
+
+def shut_has_ties(case) -> bool:
+    """a handler/arrival instant that may coincide with T_sd or a deadline: asyncio's order of two timers due
+    at the same instant is not part of the model, so such cases are checked by the oracle only"""
+    for c in case["conns"]:
+        for k in ("d", "late"):
+            v = c.get(k)
+            if v is not None and v % 250 == 0:
+                return True
+    return False
+
+
+class _Collect(logging.Handler):
+    def __init__(self):
+        super().__init__()
+        self.sink = None
+
+    def emit(self, record):
+        if self.sink is not None:
+            self.sink.setdefault("server_log", []).append(
+                record.getMessage() + (": " + type(record.exc_info[1]).__name__ if record.exc_info and record.exc_info[1] else ""))
+
+
+_COLLECT = _Collect()
+
+
+def _quiet_logger(sink):
+    """server logger that keeps records (for the evidence) instead of printing tracebacks"""
+    lg = logging.getLogger("harness.c20.server")
+    lg.propagate = False
+    if _COLLECT not in lg.handlers:
+        lg.addHandler(_COLLECT)
+    _COLLECT.sink = sink
+    return lg
+
+
+def impl_shutdown(case):
+    """Run the case on the real server; returns per-connection observables and global ones (ms relative to T0)."""
+    from aiohttp import web
+    from harness.common.loop import VLoop
+    from harness.common.transport import MemTransport
+    loop = VLoop()
+    asyncio.set_event_loop(loop)
+    loop.vtime = (BASE_MS + case["off"]) / 1000.0
+    t0 = [None]
+    over = [False]          # the observation window is over (harness teardown cancels what is left)
+    obs = [{"closed": None, "handler": "none", "late": False, "late_sent": False, "body_sent": False}
+           for _ in case["conns"]]
+
+    def now():
+        return int(round((loop.time() - t0[0]) * 1000)) if t0[0] is not None else -1
+
+    async def handler(request):
+        cid = int(request.headers["X-Conn"])
+        if request.path == "/late":
+            obs[cid]["late"] = True
+            return web.Response(text="late")
+        if request.path in ("/warm", "/second"):
+            if request.path == "/second":
+                obs[cid]["second"] = True
+            return web.Response(text="ok")
+        dur = request.headers.get("X-Dur")
+        try:
+            if request.headers.get("X-Body"):
+                await request.read()
+            elif dur == "inf":
+                await asyncio.Event().wait()
+            else:
+                await asyncio.sleep(int(dur) / 1000.0)
+        except asyncio.CancelledError:
+            if not over[0]:
+                obs[cid]["handler"] = f"cancel@{now()}"
+            raise
+        obs[cid]["handler"] = f"done@{now()}"
+        return web.Response(text="ok")
+
+    app = web.Application()
+    app.router.add_route("*", "/{tail:.*}", handler)
+    glob_obs = {"on_shutdown_begin": None, "open_at_on_shutdown": [], "returned": None, "open_at_return": []}
+
+    async def on_sd(app):
+        glob_obs["on_shutdown_begin"] = now()
+        glob_obs["open_at_on_shutdown"] = [i for i, (p, tr) in enumerate(conns) if not tr.closed]
+        if case["s"]:
+            await asyncio.sleep(case["s"] / 1000.0)
+
+    app.on_shutdown.append(on_sd)
+    conns = []
+
+    def req(cid, path="/", dur="0", body_len=None):
+        h = f"GET {path} HTTP/1.1\r\nHost: x\r\nX-Conn: {cid}\r\nX-Dur: {dur}\r\n"
+        if body_len is not None:
+            h += f"X-Body: 1\r\nContent-Length: {body_len}\r\n"
+        return (h + "\r\n").encode()
+
+    try:
+        runner = web.AppRunner(app, access_log=None, shutdown_timeout=case["t"] / 1000.0, logger=_quiet_logger(glob_obs))
+        loop.run_until_complete(runner.setup())
+        for cid, c in enumerate(case["conns"]):
+            proto = runner.server()
+
+            class Tr(MemTransport):
+                def close(self, _cid=cid):
+                    if not self.closed and not over[0]:
+                        obs[_cid]["closed"] = now()
+                    super().close()
+
+            tr = Tr(loop, proto)
+            proto.connection_made(tr)
+            conns.append((proto, tr))
+            ph, d = c["phase"], c.get("d")
+            dur = "inf" if d is None else str(d)
+            if ph == "idle":
+                proto.data_received(req(cid, "/warm"))
+            elif ph == "partial":
+                proto.data_received(req(cid, "/never")[:25])
+            elif ph == "h":
+                proto.data_received(req(cid, "/", dur))
+            elif ph == "pipe":
+                proto.data_received(req(cid, "/", dur) + req(cid, "/second"))
+            elif ph == "u":
+                proto.data_received(req(cid, "/", "0", body_len=10) + b"12345")
+            loop.run_until_idle()
+        t0[0] = loop.time()
+        for cid, c in enumerate(case["conns"]):
+            proto, tr = conns[cid]
+            if c["phase"] == "u" and c.get("d") is not None:
+                def send_body(proto=proto, tr=tr, cid=cid):
+                    if not tr.closed:
+                        obs[cid]["body_sent"] = True
+                        proto.data_received(b"67890")
+                loop.call_at(t0[0] + c["d"] / 1000.0, send_body)
+            if c.get("late") is not None:
+                def send_late(proto=proto, tr=tr, cid=cid):
+                    if not tr.closed:
+                        obs[cid]["late_sent"] = True
+                        proto.data_received(req(cid, "/late"))
+                loop.call_at(t0[0] + c["late"] / 1000.0, send_late)
+        task = loop.create_task(runner.cleanup())
+        horizon = t0[0] + (case["s"] + 3 * max(case["t"], 0)) / 1000.0 + 200.0
+        for _ in range(2000):
+            loop.run_until_idle()
+            if task.done():
+                break
+            nt = loop.next_timer()
+            if nt is None or nt > horizon:
+                break
+            loop.vtime = max(loop.vtime, nt)
+        if task.done():
+            task.result()
+            glob_obs["returned"] = now()
+            glob_obs["open_at_return"] = [i for i, (p, tr) in enumerate(conns) if not tr.closed]
+        else:
+            for i, c in enumerate(case["conns"]):
+                if c["phase"] in ("h", "pipe", "u") and obs[i]["handler"] == "none":
+                    obs[i]["handler"] = "stuck"
+    finally:
+        over[0] = True
+        logging.disable(logging.CRITICAL)
+        try:
+            pending = [x for x in asyncio.all_tasks(loop) if not x.done()]
+            for x in pending:
+                x.cancel()
+            if pending:
+                loop.run_until_complete(asyncio.gather(*pending, return_exceptions=True))
+            for p, tr in conns:
+                tr.protocol = None
+        finally:
+            logging.disable(logging.NOTSET)
+            asyncio.set_event_loop(None)
+            loop.close()
+    return obs, glob_obs
+
+
+def shut_impl_strings(case, obs, glob_obs):
+    out = []
+    for c, o in zip(case["conns"], obs):
+        h = o["handler"]
+        if c["phase"] in ("idle", "new", "partial"):
+            h = "none"
+        out.append(f"closed={'never' if o['closed'] is None else o['closed']} handler={h}")
+        if c.get("late") is not None:
+            out.append("1" if o["late"] else "0")
+    out.append("never" if glob_obs["returned"] is None else str(glob_obs["returned"]))
+    return out
+
+
+def shutdown_oracle(case, obs, glob_obs):
+    """Property clauses evaluated on the implementation's observables only.  Returns [(what, diag)]."""
+    t, s = case["t"], case["s"]
+    bad = []
+    bound = s + 2 * t + 2000          # twice the timeout after the on_shutdown signal, + rounding of two deadlines
+    for i, (c, o) in enumerate(zip(case["conns"], obs)):
+        ph, d = c["phase"], c.get("d")
+        if o["late"]:
+            bad.append((f"connection {i} ({ph}): a request sent {c['late']} ms after shutdown began was dispatched to a handler",
+                        {"kind": "late_accepted", "conn": i}))
+        if ph in ("idle", "new", "partial"):
+            if glob_obs["on_shutdown_begin"] is not None and i in glob_obs["open_at_on_shutdown"]:
+                bad.append((f"connection {i} ({ph}) was idle when shutdown began but its transport was still open when the "
+                            f"on_shutdown receivers started (closed at {o['closed']} ms)",
+                            {"kind": "idle_open_during_on_shutdown", "conn": i, "closed": o["closed"], "s": s}))
+        if ph in ("h", "pipe") and d is not None and t > 0 and d <= s + t and not o["handler"].startswith("done@"):
+            bad.append((f"connection {i}: handler needing {d} ms (<= on_shutdown {s} + timeout {t}) did not complete: {o['handler']}",
+                        {"kind": "inflight_cut_short", "conn": i, "handler": o["handler"]}))
+        if ph == "u" and d is not None and t > 0 and d <= s + t and not o["handler"].startswith("done@"):
+            bad.append((f"connection {i}: handler waiting for body bytes that the peer sent {d} ms after shutdown began "
+                        f"(<= on_shutdown {s} + timeout {t}) did not complete: {o['handler']}",
+                        {"kind": "upload_starved", "conn": i, "handler": o["handler"], "body_sent": o["body_sent"]}))
+        if ph in ("h", "pipe", "u"):
+            h = o["handler"]
+            if t > 0:
+                at = int(h.split("@")[1]) if "@" in h else None
+                if at is None or at > bound:
+                    bad.append((f"connection {i}: handler neither completed nor was cancelled within on_shutdown + 2 x timeout "
+                                f"(+2 s rounding) = {bound} ms: {h}", {"kind": "overdue", "conn": i, "handler": h}))
+            elif h == "stuck" or not ("@" in h):
+                bad.append((f"connection {i}: shutdown_timeout={t} ms but the handler was never cancelled: {h}",
+                            {"kind": "stuck", "conn": i, "handler": h, "t": t}))
+    if glob_obs["returned"] is None:
+        if t > 0 or not any(d.get("kind") == "stuck" for _, d in bad):
+            bad.append(("runner.cleanup() never returned", {"kind": "cleanup_never_returns", "t": t}))
+    else:
+        if glob_obs["open_at_return"]:
+            bad.append((f"connections {glob_obs['open_at_return']} still open when cleanup() returned",
+                        {"kind": "open_after_cleanup", "conns": glob_obs["open_at_return"]}))
+        if t > 0 and glob_obs["returned"] > bound:
+            bad.append((f"cleanup() returned after {glob_obs['returned']} ms > {bound} ms", {"kind": "cleanup_overdue"}))
+    return bad
+
+
+def _sig_idle(case, params):
+    d = case.get("diag") or {}
+    return d.get("kind") == "idle_open_during_on_shutdown" and d.get("closed") is not None and d.get("closed") == d.get("s")
+
+
+def _sig_upload(case, params):
+    d = case.get("diag") or {}
+    return d.get("kind") == "upload_starved" and d.get("body_sent") and str(d.get("handler", "")).startswith("cancel@")
+
+
+def _sig_stuck(case, params):
+    d = case.get("diag") or {}
+    return d.get("kind") == "stuck" and d.get("t", 1) <= 0
+
+
+SIGNATURES.update({
+    "idle_not_closed_by_pre_shutdown": _sig_idle,
+    "inflight_body_dropped_after_pre_shutdown": _sig_upload,
+    "nonpositive_timeout_waits_forever": _sig_stuck,
+})
+
+
+def gen_shutdown_cases(ctx):
+    rng = ctx.rng
+    cases = []
+    cfgs = [(2000, 0, 0), (2000, 250, 0), (10000, 0, 0), (10000, 4000, 250), (7500, 250, 0), (7500, 4000, 500), (5250, 750, 250)]
+    if not ctx.quick:
+        cfgs += [(t, s, off) for t in (1000, 5000, 6000, 12500) for s in (0, 500, 3000, 20000) for off in (0, 250, 750)]
+
+    def placements(t, s):
+        base = [125, s - 125, s, s + 125, s + t - 125, s + t, s + t + 125, s + t + 875, s + t + 1125, s + 2 * t - 125, s + 2 * t,
+                s + 2 * t + 125, s + 2 * t + 1125, s + 2 * t + 2125, s + 3 * t + 125]
+        return sorted({d for d in base if d > 0})
+
+    for (t, s, off) in cfgs:
+        pl = placements(t, s)
+        singles = [{"phase": "idle"}, {"phase": "new"}, {"phase": "partial"}, {"phase": "h", "d": None}, {"phase": "u", "d": None}]
+        singles += [{"phase": "h", "d": d} for d in pl]
+        singles += [{"phase": "pipe", "d": d} for d in pl[::3]]
+        singles += [{"phase": "u", "d": d} for d in (125, s + 125, s + t - 125, s + t + 125) if d > 0]
+        for c in singles:
+            lates = [None, 125] + ([s - 125] if s > 250 else []) + [s + 125]
+            if ctx.quick and c["phase"] not in ("idle", "new", "partial"):
+                lates = [None, rng.choice(lates[1:])]
+            for late in lates:
+                cases.append({"suite": "shutdown", "t": t, "s": s, "off": off, "conns": [dict(c, late=late)]})
+    cfgs2 = cfgs + [(0, 0, 0), (0, 250, 0)]
+    for _ in range(250 if ctx.quick else 6000):
+        t, s, off = rng.choice(cfgs2)
+        pl = placements(max(t, 1000), s)
+        conns = []
+        for _ in range(rng.randint(2, 4)):
+            ph = rng.choice(["idle", "new", "partial", "h", "h", "h", "pipe", "u"])
+            c = {"phase": ph}
+            if ph in ("h", "pipe"):
+                c["d"] = rng.choice(pl + [None]) if t > 0 else rng.choice(pl)
+                if t <= 0 and rng.random() < 0.3:
+                    c["d"] = None
+            elif ph == "u":
+                c["d"] = rng.choice([125, s + 125, s + max(t, 1000) - 125, None])
+            c["late"] = rng.choice([None, None, 125, s + 125, max(125, s - 125)])
+            conns.append(c)
+        cases.append({"suite": "shutdown", "t": t, "s": s, "off": off, "conns": conns})
+    return cases
+
+
+def check_shutdown_case(ctx, case, model_lines_out, record=True):
+    obs, glob_obs = impl_shutdown(case)
+    impl = shut_impl_strings(case, obs, glob_obs)
+    res = {"impl": impl, "model": model_lines_out, "violates": False, "why": []}
+    ties = shut_has_ties(case)
+    if record:
+        ctx.case(("shutdown", case["t"], case["s"], case["off"], tuple(impl)),
+                 nontrivial=any(c["phase"] in ("h", "pipe", "u") for c in case["conns"]))
+        ctx.count(f"shutdown:conns:{len(case['conns'])}")
+        for c, o in zip(case["conns"], obs):
+            ctx.count("shutdown:phase:" + c["phase"])
+            ctx.count("shutdown:handler:" + o["handler"].split("@")[0])
+        ctx.count("shutdown:oracle_only(ties)" if ties else "shutdown:compared_with_model")
+        for m in glob_obs.get("server_log", []):
+            ctx.count("shutdown:server_log:" + m[:60])
+    if model_lines_out is not None and not ties and model_lines_out != impl:
+        ctx.disagreement("shutdown", case, model_lines_out, impl)
+        res["disagree"] = True
+    for what, diag in shutdown_oracle(case, obs, glob_obs):
+        res["violates"] = True
+        res["why"].append(what)
+        if record:
+            ctx.violation(dict(case, diag=diag, impl_obs=impl), "shutdown: " + what)
+    return res
+
+
+def suite_shutdown(ctx, exe):
+    cases = []
+    for p in sorted(glob.glob(os.path.join(fw.VERIF, "corpus", "C20", "*.json"))):
+        c = json.load(open(p))
+        c = c.get("case", c)
+        if c.get("suite") == "shutdown":
+            cases.append({k: c[k] for k in ("suite", "t", "s", "off", "conns")})
+            ctx.count("shutdown:corpus")
+    cases += gen_shutdown_cases(ctx)
+    lines, spans = [], []
+    for c in cases:
+        ls = shut_model_lines(c)
+        spans.append((len(lines), len(lines) + len(ls)))
+        lines += ls
+    model = fw.run_model(exe, lines) if exe else None
+    n_cmp = 0
+    for c, (a, b) in zip(cases, spans):
+        check_shutdown_case(ctx, c, model[a:b] if model else None)
+        n_cmp += 0 if (shut_has_ties(c) or not model) else 1
+    ctx.sample({"case": cases[-1], "model": model[spans[-1][0]:spans[-1][1]] if model else None})
+    ctx.traces_validated += n_cmp
+    ctx.close_suite("shutdown", n_cmp)
 
 
 def run(ctx):
     ok, exe = build_model()
     ctx.oblige("model-runner-build", "correspondence", ok, "" if ok else exe)
     if not ok:
-        return
+        exe = None
     suite_lifecycle(ctx, exe)
+    suite_shutdown(ctx, exe)
 
 
 def replay(ctx, case):
@@ -542,4 +926,8 @@ def replay(ctx, case):
         c = {k: case[k] for k in ("suite", "driver", "tree", "fails")}
         m = fw.run_model(exe, [model_line(c)])[0] if ok else None
         return check_lifecycle_case(ctx, c, m, record=False)
+    if case.get("suite") == "shutdown":
+        c = {k: case[k] for k in ("suite", "t", "s", "off", "conns")}
+        m = fw.run_model(exe, shut_model_lines(c)) if ok else None
+        return check_shutdown_case(ctx, c, m, record=False)
     return {"violates": None, "note": "unknown suite"}
